@@ -360,14 +360,14 @@ func c12Build(sys, curve string, set, vset int, sess []byte) *proofInst {
 var c12Systems = []string{"schnorr", "schnorr-v", "dln", "paillier", "mod", "fac", "range", "bob", "bobwc"}
 
 type c12Case struct {
-	Sys    string
-	Curve  string
-	Set    int
-	VSet   int
-	Sess   B
-	Tr     string // transformation
-	Pos    int
-	D      H
+	Sys   string
+	Curve string
+	Set   int
+	VSet  int
+	Sess  B
+	Tr    string // transformation
+	Pos   int
+	D     H
 }
 
 var c12Transforms = []string{"sess-other", "sess-prefix", "sess-suffix", "sess-empty", "sess-index", "+1", "-1", "rand", "zero", "neg", "swap-neighbour", "other-set", "negate-point", "point+G", "shift", "shift", "swap-statement"}
